@@ -6,7 +6,7 @@ import casadi as ca
 
 from .. import oracles as O
 from ..caseval import Ev
-from ..groups import base_specs, product_specs, ProductSpec, SO3Spec
+from ..groups import base_specs, product_specs, ProductSpec, SO3Spec, extra_euler_specs, SO3S, RnSpec, SE2Spec, SE3Spec
 from .lie_common import (lib_call, mrp_product_ok, euler_ok, group_corpus, run_contract_slice,
                          configs_for_shard)
 
@@ -33,7 +33,7 @@ def nontrivial(spec, P):
 def run(ctx):
     N = N_QUICK if ctx.quick else N_THOROUGH
     cfg_rng = np.random.default_rng([ctx.seed, 101])
-    specs = base_specs() + product_specs(cfg_rng, ctx.tier)
+    specs = base_specs() + extra_euler_specs() + product_specs(cfg_rng, ctx.tier)
     mine = configs_for_shard(specs, ctx)
     ctx.note("configs_total", [s.name for s in specs])
     for spec in mine:
@@ -46,6 +46,8 @@ def run(ctx):
                            ops=("product", "inverse", "identity"))
     if ctx.shard == 1 % ctx.nshards:
         repo_tests_under_contracts(ctx)
+    if ctx.shard == 2 % ctx.nshards:
+        construction_history(ctx)
     ctx.require("product:SO3Quat") if any(s.name == "SO3Quat" for s in mine) else None
 
 
@@ -199,3 +201,56 @@ def repo_tests_under_contracts(ctx):
     ctx.note("repo_tests_under_contracts", {"pytest_exit": rep["exitstatus"], "tail": r.stdout.strip().splitlines()[-1:] if r.stdout else []})
     if tot == 0:
         ctx.inconclusive.append("contracts never evaluated while running the repository's tests")
+
+
+def construction_history(ctx):
+    """histories of group construction: building a larger direct product from an existing one (G = A*B, then H = G*C,
+    K = G*D) must leave G a correct A x B and make H, K correct too -- groups are values, not shared mutable state"""
+    rng = ctx.rng("c01:history")
+    Sa, Sb, Sc, Sd = SO3S["quat"], RnSpec(3), SE2Spec(), SE3Spec(SO3S["mrp"])
+    orders = [((Sa, Sb), Sc, Sd), ((Sc, Sa), Sb, Sa), ((Sd, Sa), Sc, Sb)]
+    for (p, q), r, s in orders:
+        label = "%s*%s then *%s, *%s" % (p.name, q.name, r.name, s.name)
+        try:
+            G = p.lib() * q.lib()
+            spG = ProductSpec([p, q])
+            spG._lib = G
+            before = _product_snapshot(spG, G, rng)
+            H = G * r.lib()
+            K = G * s.lib()
+            after = _product_snapshot(spG, G, rng)
+            okG = before is not None and after is not None and before[0] <= 1e-9 and after[0] <= 1e-9 and G.n_param == p.n + q.n and len(G.groups) == 2
+            ctx.check("group_unchanged_by_later_products", "direct_product", okG, {"history": label, "error_before": None if before is None else before[0],
+                                                                                   "error_after": None if after is None else after[0], "n_param": G.n_param, "factors": len(G.groups)})
+            for grp, parts in ((H, [p, q, r]), (K, [p, q, s])):
+                sp = ProductSpec(parts)
+                sp._lib = grp
+                snap = _product_snapshot(sp, grp, rng)
+                ctx.check("later_product_correct", "direct_product", snap is not None and snap[0] <= 1e-9 and grp.n_param == sp.n and len(grp.groups) == 3,
+                          {"history": label, "group": sp.name, "error": None if snap is None else snap[0], "n_param": grp.n_param, "expected_n_param": sp.n})
+        except Exception as e:
+            ctx.tally("group_unchanged_by_later_products:direct_product")
+            ctx.violation("group_unchanged_by_later_products", "direct_product", {"history": label, "exception": type(e).__name__, "message": str(e)[:300]})
+
+
+def _product_snapshot(spec, G, rng, n=40):
+    """max error of product / inverse / identity / to_Matrix of G on n random elements against the oracle"""
+    try:
+        A, B = spec.rand(rng, n, thi=10.0), spec.rand(rng, n, thi=10.0)
+        ok = mrp_product_ok(spec, A, B)
+        err = 0.0
+        for k in range(n):
+            if not ok[k]:
+                continue
+            a, b = G.elem(ca.DM(A[k])), G.elem(ca.DM(B[k]))
+            MA, MB = spec.mat(A[k][None])[0], spec.mat(B[k][None])[0]
+            Pm = spec.mat(np.array(ca.DM((a * b).param).full()).ravel()[None])[0]
+            Im = spec.mat(np.array(ca.DM(a.inverse().param).full()).ravel()[None])[0]
+            Tm = np.array(ca.DM(a.to_Matrix()).full())
+            sc = max(1.0, np.abs(MA).max(), np.abs(MB).max())
+            err = max(err, np.abs(Pm - MA @ MB).max() / sc, np.abs(Im @ MA - np.eye(spec.md)).max() / sc**2, np.abs(Tm - MA).max() / sc)
+        Em = spec.mat(np.array(ca.DM(G.identity().param).full()).ravel()[None])[0]
+        err = max(err, np.abs(Em - np.eye(spec.md)).max())
+        return (float(err),)
+    except NotImplementedError:
+        return None
